@@ -14,12 +14,17 @@ Definition bases : list str := map list_ascii_of_string legacy_base.
 Definition c_dot : ascii := "."%char.
 
 (* LegacyOpensslVersion.parse: None = returns False; Err = raises *)
+(* f"{major}.{minor}.{build}" in all_legacy_base *)
+Definition known_base (v : legacy) : bool :=
+  existsb (eqs (str_of_N (l_major v) ++ c_dot :: str_of_N (l_minor v) ++ c_dot :: str_of_N (l_build v))) bases.
+Definition checked (v : legacy) : res (option legacy) := if known_base v then Ok (Some v) else Ok None.
+
 Definition leg_parse (s : str) : res (option legacy) :=
   if negb (existsb (startswith s) bases) then Ok None
   else match split_c c_dot s with
        | [a; b; c] =>
            if negb (isdigit a && isdigit b) then Err EValue          (* int(major) / int(minor) *)
-           else if isdigit c then Ok (Some {| l_major := int_of_digits a; l_minor := int_of_digits b; l_build := int_of_digits c; l_patch := [] |})
+           else if isdigit c then checked {| l_major := int_of_digits a; l_minor := int_of_digits b; l_build := int_of_digits c; l_patch := [] |}
            else match c with
                 | [] => Err EIndex                                   (* build[0] *)
                 | c0 :: patch =>
@@ -27,7 +32,7 @@ Definition leg_parse (s : str) : res (option legacy) :=
                     else match patch with
                          | [] => Err EIndex                          (* patch[0] *)
                          | p0 :: _ => if is_digit p0 then Ok None
-                                      else Ok (Some {| l_major := int_of_digits a; l_minor := int_of_digits b; l_build := digit_val c0; l_patch := patch |})
+                                      else checked {| l_major := int_of_digits a; l_minor := int_of_digits b; l_build := digit_val c0; l_patch := patch |}
                          end
                 end
        | _ => Ok None
